@@ -304,6 +304,18 @@ def gen_system_case(ch, extended=False, allow_cage=True):
                 a, b = ch.pick(keys)
                 m.order[frozenset((a, b))] = 1
         mj = mol_json(m)
+    if ch.bool(15):
+        # isotope labels on ring atoms that are otherwise written without brackets ([13cH], [13c], [15n], [18o], [34s]): the same
+        # atom kinds in their bracket spelling (explicit H count); judged by the correctness-if-accepted clauses only
+        iso = {"C": 13, "N": 15, "O": 18, "S": 34, "P": 32}
+        p_label = ch.pick([15, 50, 100])
+        for i, a in enumerate(m.atoms):
+            if a["arom"] and not a["bracket"] and a["el"] in iso and ch.bool(p_label):
+                sig = sum((1 if m.order[frozenset((i, y))] == 1.5 else m.order[frozenset((i, y))]) for y in m.adj[i])
+                a["iso"] = iso[a["el"]]
+                a["bracket"] = True
+                a["h"] = 1 if (a["el"] == "C" and sig == 2) else 0
+        mj = mol_json(m)
     if len(m.atoms) > 70 and name not in ("C60",):
         return None
     sps = spell(m, ch, ch.int(3, 6) if len(m.atoms) < 40 else 3)
